@@ -329,7 +329,7 @@ pub fn replay(v: &Value) -> Outcome {
 
 pub fn run(env: &Env, known: &Known, started: Instant, replayed: u64, replay_violations: Vec<Violation>) -> i32 {
     verify_catalogue();
-    let cfg = ChoiceRun { env, pid: PID, part: "faults", cases: env.tier.pick(16_000, 500_000), max_len: 900, known };
+    let cfg = ChoiceRun { env, pid: PID, part: "faults", cases: env.tier.pick(60_000, 500_000), max_len: 900, known };
     let rr = run_choices(&cfg, run_case);
     let ev = Evidence {
         env, pid: PID, level: "exploration",
